@@ -269,9 +269,12 @@ pub fn check_sender(tr: &Trace) -> (Vec<MViol>, Summary) {
         // the worker gave up: was it entitled to?
         // a duplicate / stale ACK must never be the reason for ending, however many of them arrive (C08)
         if last_answer_was_dup && !error_delivered && !tolerated_abort_cause {
-            push(&mut out, mv("W3-abort-on-dup-ack", &["C08", "C04"], format!("transfer aborted{} right after a duplicate/stale acknowledgement [{}]", if tr.panicked { " by panic" } else { "" }, prev_label), &[("ws", json!(cfg.ws)), ("panic", json!(tr.panicked))]));
+            // (in duplicate-packets mode a transfer that does not complete with a conformant peer also breaks C16)
+            let props: &[&'static str] = if cfg.repeat > 1 { &["C08", "C04", "C16"] } else { &["C08", "C04"] };
+            push(&mut out, mv("W3-abort-on-dup-ack", props, format!("transfer aborted{} right after a duplicate/stale acknowledgement [{}]", if tr.panicked { " by panic" } else { "" }, prev_label), &[("ws", json!(cfg.ws)), ("panic", json!(tr.panicked))]));
         } else if !error_delivered && !tolerated_abort_cause && any_data && max_consecutive_failures < RETRY_BUDGET {
-            push(&mut out, mv("L1-gave-up-early", &["C04"], format!("sender ended{} before the final block was acknowledged although at most {} consecutive receive attempts failed (last answer [{}])", if tr.panicked { " by panic" } else { "" }, max_consecutive_failures, prev_label), &[("role", json!("sender")), ("panic", json!(tr.panicked))]));
+            let props: &[&'static str] = if cfg.repeat > 1 { &["C04", "C16"] } else { &["C04"] };
+            push(&mut out, mv("L1-gave-up-early", props, format!("sender ended{} before the final block was acknowledged although at most {} consecutive receive attempts failed (last answer [{}])", if tr.panicked { " by panic" } else { "" }, max_consecutive_failures, prev_label), &[("role", json!("sender")), ("panic", json!(tr.panicked))]));
         }
     }
     if tr.now_calls == 0 && any_data {
@@ -414,7 +417,8 @@ pub fn check_receiver(tr: &Trace) -> (Vec<MViol>, Summary) {
             (None, true) => {}
         }
         if !refr.done && !error_delivered && !send_failed && max_consecutive_failures < RETRY_BUDGET {
-            push(&mut out, mv("L1-gave-up-early", &["C04"], format!("receiver ended{} before the final block although at most {} consecutive receive attempts failed", if tr.panicked { " by panic" } else { "" }, max_consecutive_failures), &[("role", json!("receiver")), ("panic", json!(tr.panicked))]));
+            let props: &[&'static str] = if cfg.repeat > 1 { &["C04", "C16"] } else { &["C04"] };
+            push(&mut out, mv("L1-gave-up-early", props, format!("receiver ended{} before the final block although at most {} consecutive receive attempts failed", if tr.panicked { " by panic" } else { "" }, max_consecutive_failures), &[("role", json!("receiver")), ("panic", json!(tr.panicked))]));
         }
     }
     (out, summary)
